@@ -9,7 +9,7 @@ import re
 LEAN = os.path.join(os.path.dirname(os.path.dirname(os.path.abspath(__file__))), 'lean')
 
 MIN = {'C01': 4, 'C02': 3, 'C03': 2, 'C04': 17, 'C05': 7, 'C06': 8, 'C07': 8, 'C08': 15, 'C09': 4, 'C10': 20, 'C11': 7, 'C12': 3, 'C13': 24,
-       'C14': 12, 'C16': 6, 'C17': 6, 'C18': 5, 'C19': 10}
+       'C14': 12, 'C15': 15, 'C16': 6, 'C17': 6, 'C18': 5, 'C19': 10}
 
 EXTRA_MODULES = {}
 
